@@ -444,6 +444,10 @@ def install_setcomp(I):
     I.specs["comp_abstract"] = comp
 
 
+def n_quantified(formulas):
+    return sum(1 for f in formulas if z3.is_quantifier(f))
+
+
 class CtxVC(VC):
     prop = "C05"
     timeout_quick = 20000
@@ -474,9 +478,26 @@ class NewContext(CtxVC):
     def configure(self, I):
         install_dict_merge(I)
         c = self
-        # feasibility checks on the quantified path conditions of the merge loop normally take a few ms; z3 was observed not to come
-        # back after a *cancelled* check of this formula class (300 ms default, tripped on a loaded machine): give it room
-        I.feas_timeout = 20000
+        # Satisfiability of the path conditions inside / after the merge loop (5+ quantified facts: items enumeration, merged dict,
+        # invariants) is never decided by z3 within the feasibility budget, and z3 was observed (about 1 run in 20) not to come back
+        # after such a *cancelled* check.  Those queries are skipped: both branches are explored / the path counts as reachable
+        # (sound: an infeasible path only adds vacuous obligations).
+        base_fork = I.fork_bool
+
+        def fork_bool(st, cond):
+            if n_quantified(st.pc) < 5:
+                return base_fork(st, cond)
+            cs = z3.simplify(cond)
+            if z3.is_true(cs):
+                return [(st, True)]
+            if z3.is_false(cs):
+                return [(st, False)]
+            s1 = st.fork()
+            s1.assume(cond)
+            st.assume(z3.Not(cond))
+            return [(s1, True), (st, False)]
+
+        I.fork_bool = fork_bool
 
         def ctor(I_, st, args, kwargs, node):
             r = st.alloc(HObj(R.Context, path="new_context"))
@@ -530,6 +551,22 @@ class NewContext(CtxVC):
         self.pre_terms = {n: (dict_terms(st, r) if r is not None else empty_terms()) for n, r in
                           (("vars", self.vars), ("globals", self.globals), ("locals", self.locals))}
         return [self.env, self.tname, self.blocks, self.vars, self.shared, self.globals, self.locals], {}
+
+    def run(self, tier, seed):
+        import pyvc.contract as CT
+        from pyvc.smt import Result
+        orig = CT.check_sat
+
+        def check(formulas, timeout_ms=10000, seed=0, use_cvc5=True):
+            if timeout_ms <= 400 and n_quantified(formulas) >= 5:
+                return Result("unknown", reason="reachability of a quantified path condition not queried")
+            return orig(formulas, timeout_ms, seed, use_cvc5)
+
+        CT.check_sat = check
+        try:
+            return VC.run(self, tier, seed)
+        finally:
+            CT.check_sat = orig
 
     def ctor_call(self, out):
         ev = A.calls(out, "context_class")
